@@ -73,6 +73,15 @@ func Render(b *recipe.Builder, fr *recipe.File) (out []byte, err error) {
 		}
 	}()
 	var f *jen.File = b.File(fr)
+	// (one File in three is first rendered into a writer that refuses the bytes: a failed render leaves the
+	// File as it was)
+	h := 0
+	for _, n := range fr.Body {
+		h += recipe.CountCalls(n)
+	}
+	if h%3 == 1 {
+		_ = f.Render(refusingWriter{})
+	}
 	return recipe.RenderFile(f)
 }
 
@@ -114,3 +123,7 @@ var wellKnownStd = map[string]bool{
 	"unicode": true, "unicode/utf8": true, "unicode/utf16": true, "net/http": true, "net/url": true, "encoding/json": true, "encoding/binary": true,
 	"path/filepath": true, "reflect": true, "runtime": true, "context": true, "bufio": true, "regexp": true, "testing": true, "crypto/rand": true, "go/ast": true, "go/token": true,
 }
+
+type refusingWriter struct{}
+
+func (refusingWriter) Write(p []byte) (int, error) { return 0, fmt.Errorf("writer fails") }
